@@ -210,4 +210,31 @@ assigned in the body), although the read of `v` itself sees both. `isSub`: the f
 `assignedInLoop`: an enclosing loop assigns that name. -/
 def D01_loopCarriedSubscript (isSub assignedInLoop : Bool) : Bool := isSub && assignedInLoop
 
+/-! ### composite variables (`x[k1][k2]`, `x.a.b`): classes of the COMPOSITE stream
+
+The failing evaluation is a read of a composite `F` (or of the root name). The harness extracts three facts from the
+function text; the classes are their readings. None of them covers the plain shape "narrow / store a deep composite,
+assign a proper prefix in the same straight-line block, read the deep composite again", which must be sound. -/
+
+/-- `compositeStaleParent`: the failing read is a PREFIX (root included) of a composite that was stored to earlier: the
+value pyanalyze keeps for the prefix (a display, an earlier store) is not updated / forgotten when a member below it
+is assigned. `prefixOfEarlierStore`: some earlier store targets a strictly deeper composite that extends `F`. -/
+def D01_compositeStaleParent (prefixOfEarlierStore : Bool) : Bool := prefixOfEarlierStore
+
+/-- `compositeJoinAfterReset`: a proper prefix of `F` is assigned inside ONE branch of a conditional that does not
+contain the failing read, and the read comes after the join: in that branch the composite has an EMPTY list of
+definition nodes (reset by `FunctionScope.set`), `get_combined_scope` chains the lists, so only the other branch's
+narrowing / store survives the join. -/
+def D01_compositeJoinAfterReset (prefixAssignedInOtherBranch : Bool) : Bool := prefixAssignedInOtherBranch
+
+/-- `compositeInLoop`: the failing read lies in or after a loop whose body tests or stores a composite of the same root
+(or assigns the root): narrowing and stores of one round are assumed at the next one (the loop classes of C09 / C01
+for plain names, for composites). -/
+def D01_compositeInLoop (loopWithCompositeEffect : Bool) : Bool := loopWithCompositeEffect
+
+def d01CompositeClasses (inLoop stale joinReset : Bool) : List String :=
+  (if D01_compositeInLoop inLoop then ["compositeInLoop"] else []) ++
+  (if D01_compositeStaleParent stale then ["compositeStaleParent"] else []) ++
+  (if D01_compositeJoinAfterReset joinReset then ["compositeJoinAfterReset"] else [])
+
 end Pya.C01
